@@ -108,6 +108,50 @@ class LockProxy:
         self.release()
 
 
+_LOCK_TYPES = (type(threading.Lock()), type(threading.RLock()))
+
+
+class ProxySet:
+    """Every lock the scheduled code could block on: all Lock/RLock attributes of the registry object and all
+    module-level Lock/RLock globals of the traced modules are replaced by `LockProxy` objects for the duration of a run
+    (a thread that waits for any of them yields to the scheduler instead of blocking the process).  `main` is the proxy of
+    `use_lock` (the lock the model knows); a change that adds further locks is scheduled like any other code."""
+
+    def __init__(self, sched, reg, modules=()):
+        self.saved = []
+        self.proxies = []
+        self.main = None
+        for name, v in list(vars(reg).items()):
+            if isinstance(v, _LOCK_TYPES):
+                pr = LockProxy(sched, reentrant="RLock" in type(v).__name__)
+                self.saved.append((reg, name, v))
+                setattr(reg, name, pr)
+                self.proxies.append(pr)
+                if name == "use_lock":
+                    self.main = pr
+        for m in modules:
+            for name, v in list(vars(m).items()):
+                if isinstance(v, _LOCK_TYPES):
+                    pr = LockProxy(sched, reentrant="RLock" in type(v).__name__)
+                    self.saved.append((m, name, v))
+                    setattr(m, name, pr)
+                    self.proxies.append(pr)
+        if self.main is None:
+            # the code has no `use_lock` any more: an unowned proxy keeps the bookkeeping below uniform
+            self.main = LockProxy(sched, reentrant=True)
+
+    def restore(self):
+        for obj, name, v in self.saved:
+            setattr(obj, name, v)
+
+    def any_owned(self):
+        return any(pr.owner is not None for pr in self.proxies)
+
+    def reset(self):
+        for pr in self.proxies:
+            pr.owner, pr.count = None, 0
+
+
 class Scheduler:
     """Runs worker functions in threads, one at a time; preemption points are the trace events in `files`."""
 
@@ -438,10 +482,8 @@ class Case:
             for op in self.prefix:
                 rr.do(op)
             sched = Scheduler([rr.B.__file__], point_filter=point_filter)
-            orig = rr.reg.use_lock
-            reentrant = "RLock" in type(orig).__name__
-            proxy = LockProxy(sched, reentrant=reentrant)
-            rr.reg.use_lock = proxy
+            pset = ProxySet(sched, rr.reg, [rr.B])
+            proxy = pset.main
             outs = [[] for _ in self.progs]
 
             def body(t):
@@ -456,7 +498,7 @@ class Case:
             try:
                 choices = sched.run(policy)
             finally:
-                rr.reg.use_lock = orig
+                pset.restore()
             for w in sched.workers:
                 if w.error is not None:
                     if isinstance(w.error, core.MachineryError):
@@ -464,10 +506,10 @@ class Case:
                     raise core.MachineryError(f"worker {w.idx} died: {w.error!r}")
             # a thread that never finished (deadlock) has fewer outcomes than calls
             info = {"deadlock": sched.deadlock, "events": list(sched.events), "steps": [w.steps for w in sched.workers],
-                    "lock_held_at_end": proxy.owner is not None, "enabled": [list(en) for _, en in sched.trace],
+                    "lock_held_at_end": pset.any_owned(), "enabled": [list(en) for _, en in sched.trace],
                     "blocked": sched.blocked}
-            if sched.deadlock or proxy.owner is not None:
-                proxy.owner, proxy.count = None, 0
+            if sched.deadlock or pset.any_owned():
+                pset.reset()
             st = canon_state(rr.state())
         return {"outs": outs, "state": st}, choices, info
 
@@ -794,12 +836,13 @@ class E2E:
         from einx._src.frontend.backend import registry
         progs = self.programs()
         sched = Scheduler(e2e_files())
-        orig = registry.use_lock
-        proxy = LockProxy(sched, reentrant="RLock" in type(orig).__name__)
+        import importlib
+        pset = ProxySet(sched, registry, [sys.modules[n] for n in ("einx._src.frontend.backend", "einx._src.frontend.api",
+                                                                   "einx._src.util.lru_cache", "einx._src.tracer.graph") if n in sys.modules])
+        proxy = pset.main
         before = (list(registry.state.use_stack), [id(b) for b in registry.state.backends])
         results = [[] for _ in range(self.nthreads)]
         alt = einx.backend.get("numpy.einsum")
-        registry.use_lock = proxy
 
         def caller(i):
             def fn():
@@ -827,14 +870,14 @@ class E2E:
         try:
             choices = sched.run(policy)
         finally:
-            registry.use_lock = orig
+            pset.restore()
         for w in sched.workers:
             if w.error is not None:
                 raise core.MachineryError(f"e2e worker {w.idx} died: {w.error!r}")
         problems = [f"thread {'ABC'[i]} call {j} ({n}): {r}" for i, rs in enumerate(results) for j, (n, r) in enumerate(rs) if r != "ok"]
         if sched.deadlock:
             problems.append("deadlock")
-        if proxy.owner is not None:
+        if pset.any_owned():
             problems.append("registry lock still owned after all threads finished")
         after = (list(registry.state.use_stack), [id(b) for b in registry.state.backends])
         if after != before:
